@@ -372,7 +372,12 @@ def gen_limit_deltas_case(rng, name):
         cols.append([t, [NAN if rng.random() < 0.4 else hx(rng.choice([0.125, 0.25, 0.25, 0.375, -0.125])) for _ in range(n)]])
     g.adata.append([key, ["frame", list(dates), cols]])
     lim = hx(rng.choice([0.03125, 0.0625, 0.125, 0.25]))
-    st = [["runperiod", "daily", True, False, False], ["selectall", False, False], ["weightarget", key], ["limitdeltas", lim, []], ["rebalance"]]
+    weigh = ["weightarget", key]
+    if rng.random() < 0.4:
+        # static targets walked to at the limited pace over several dates: the specification must survive each date's clipping
+        weigh = ["weighspecified", [[t, hx(rng.choice([0.125, 0.25, 0.375, -0.125]))] for t in rng.sample(tickers, rng.randint(1, nt))]]
+        g.adata.pop()
+    st = [["runperiod", "daily", True, False, False], ["selectall", False, False], weigh, ["limitdeltas", lim, []], ["rebalance"]]
     kids = [["sec", t, "sec", False, hx(1.0), "str"] for t in tickers] if rng.random() < 0.5 else []
     tree = ["strat", nt + 5, False, kids, st]
     plain = rng.random() < 0.7
@@ -383,6 +388,35 @@ def gen_limit_deltas_case(rng, name):
             "capital": hx(float(rng.choice([100000, 1000000]))), "tree": tree, "pyseed": rng.randint(0, 1000)}
 
 
+def gen_rot_case(rng, name):
+    """static targets reached over n dates by run_always(RebalanceOverTime(n)): targets arrive on a calendar gate (sometimes
+    again before the schedule has finished), prices move in between.  Mostly cost-free and fractional, so that the
+    n-th-step oracle applies."""
+    g = BTGen(rng)
+    n = rng.randint(8, 18)
+    dates = gen_dates(rng, n)
+    nt = rng.randint(2, 4)
+    tickers = list(range(1, nt + 1))
+    prices = [[t, gen_price_col(rng, n, p_nan=0.0)] for t in tickers]
+    g.full = set(tickers)
+    sub = rng.sample(tickers, rng.randint(1, nt))
+    ws = [[t, hx(rng.choice([0.125, 0.25, 0.375, -0.125, 0.5]) / (1 if len(sub) < 3 else 2))] for t in sub]
+    steps = rng.randint(2, 4)
+    gate = rng.choice([["runonce"], ["runperiod", "weekly", True, False, False], ["runperiod", "monthly", True, False, False],
+                       ["everyn", rng.randint(2, 6), 0], ["runperiod", "daily", True, False, False]])
+    st = [gate, ["selectall", False, False], ["weighspecified", ws]]
+    if rng.random() < 0.25:
+        st.append(["scale", hx(rng.choice([0.5, 0.75]))])
+    st.append(["always", True, ["rebalanceovertime", hx(float(steps))]])
+    kids = [["sec", t, "sec", False, hx(1.0), "str"] for t in tickers] if rng.random() < 0.5 else []
+    plain = rng.random() < 0.75
+    return {"name": name, "dates": dates, "intpos": (not plain) and rng.random() < 0.5,
+            "comm": ["none"] if plain else rng.choice([["none"], ["prop", hx(0.001953125)], ["flat", hx(1.0)]]), "prices": prices,
+            "bidoffer": None, "coupons": None, "cost_long": None, "cost_short": None, "adata": [],
+            "capital": hx(float(rng.choice([100000, 1000000]))), "tree": ["strat", nt + 5, False, kids, st],
+            "pyseed": rng.randint(0, 1000)}
+
+
 def gen_case(rng, name):
     r0 = rng.random()
     if r0 < 0.2:
@@ -391,6 +425,8 @@ def gen_case(rng, name):
         return gen_replay_case(rng, name)
     if r0 < 0.31:
         return gen_limit_deltas_case(rng, name)
+    if r0 < 0.35:
+        return gen_rot_case(rng, name)
     g = BTGen(rng)
     n = rng.randint(6, 24)
     dates = gen_dates(rng, n)
